@@ -23,6 +23,7 @@ var c10Polluters = []jsProg{
 	{"bindings-depth3", `_.bindings.o.l[0].z = 99; _.bindings.o.l.push(7); return {};`},
 	{"props-nested", `_.props.cfg.x = 99; _.props.list.push(1); return {};`},
 	{"props-top", `_.props.top = 1; delete _.props.cfg; return {};`},
+	{"props-array-of-maps", `_.props.hosts[0].up = false; _.props.hosts[0].tags.push("t"); _.props.hosts[1][0].deep = 2; return {};`},
 	{"implicit-global", `leak = 42; return {};`},
 	{"this-global", `this.leak2 = 43; return {};`},
 	{"object-prototype", `Object.prototype.polluted = 1; return {};`},
@@ -62,7 +63,8 @@ func c10Bindings() match.Bindings {
 }
 
 func c10Props() core.StepProps {
-	return core.StepProps{"cfg": M{"x": 1.0}, "list": []interface{}{"p"}, "s": "v"}
+	return core.StepProps{"cfg": M{"x": 1.0}, "list": []interface{}{"p"}, "s": "v",
+		"hosts": []interface{}{M{"name": "a", "up": true, "tags": []interface{}{"x"}}, []interface{}{M{"deep": 1.0}}}}
 }
 
 type c10Case struct {
